@@ -48,6 +48,8 @@ def run(ctx):
     # both sides sort the RRset with canonical_cmp: its agreement with the canonical form is part of "signatures verify"
     import c04
     c04.rule_canon(ctx, F)
+    c04.rule_lenfirst(ctx, F)
+    rule_algtab(ctx, F)
     rule_sorted(ctx, F)
     # a signature is made over / verified against the record data as it is: conversions between octets types keep every
     # field (Rrsig::flatten, convert_octets, OctetsFrom) -- shared with C05
@@ -425,3 +427,44 @@ def rule_types(ctx, F):
                "lower-cased in the signed octets: such a record is an UnknownRecordData, is signed with the names as written, "
                "and the signature fails at a validator after a (legitimate) case change of the RDATA name -- and at every "
                "validator that implements the RFC" % name.upper())
+
+
+def rule_algtab(ctx, F):
+    """Signer and verifier use the same hash for one algorithm number.  (a) In the ring signer every padding / curve
+    constant referenced under a KeyPair variant names the digest that the variant names (RsaSha512 -> ..._SHA512).
+    (b) DnskeyExt::digest builds, for DS digest type 1 / 2 / 4, the SHA-1 / SHA-256 / SHA-384 context (RFC 4034, 4509,
+    6605) -- the table is read off the match arms."""
+    from rulelib import outcome_facts
+    R = "C12.algtab"
+    ctx.floor(R, 5)
+    sb = F.one_body(r"^<crypto::ring::sign::KeyPair as crypto::sign::SignRaw>::sign_raw$")
+    if ctx.anchor(R, "ring KeyPair::sign_raw", sb):
+        n = 0
+        for bi in sorted(sb.reachable_blocks()):
+            for st in sb.blocks[bi]["s"]:
+                if st[0] != "=" or st[2][0] != "use" or st[2][1][0] != "k" or not st[2][1][3]:
+                    continue
+                m = re.search(r"ring::signature::\w*?SHA(\d+)", str(st[2][1][3]))
+                if not m:
+                    continue
+                variants = [o[1] for tm, o in outcome_facts(sb, bi, F) if isinstance(o, tuple) and o[0] == "variant" and re.search(r"Sha\d+", str(o[1]))]
+                n += 1
+                ok = bool(variants) and all(re.search(r"Sha(\d+)", v).group(1) == m.group(1) for v in variants)
+                ctx.ob(R, sb, "%s is signed with the digest it names" % (variants[0] if variants else "?"), ok,
+                       "sign_raw uses %s under the key variant %s: the signature is made over another digest than the algorithm number "
+                       "promises and the verifier (which follows the number) answers BadSig" % (st[2][1][3], variants), sb.where(bi))
+        ctx.ob(R, sb, "digest-bearing constants found in sign_raw", n >= 2, "found %d" % n, nontrivial=False)
+    db = F.one_body(r"^<rdata::dnssec::Dnskey<Octets> as dnssec::validator::base::DnskeyExt>::digest$")
+    if ctx.anchor(R, "DnskeyExt::digest", db):
+        want = {1: "Sha1", 2: "Sha256", 4: "Sha384"}
+        seen = {}
+        for bi in sorted(db.reachable_blocks()):
+            for st in db.blocks[bi]["s"]:
+                if st[0] == "=" and st[2][0] == "agg" and st[2][1][0] == "adt" and str(st[2][1][1]).endswith("crypto::common::DigestType"):
+                    ks = [o[1] for tm, o in outcome_facts(db, bi, F) if isinstance(o, tuple) and o[0] == "eq" and isinstance(o[1], int)]
+                    for k in ks:
+                        seen[k] = st[2][1][2]
+        for k, v in sorted(want.items()):
+            ctx.ob(R, db, "DS digest type %d is computed with %s" % (k, v), seen.get(k) == v,
+                   "DnskeyExt::digest builds a %s context for digest type %d (must be %s): the DS digest differs from what every "
+                   "other implementation computes, and a correct DS in the parent never matches the key" % (seen.get(k), k, v), db.where())
